@@ -130,27 +130,27 @@ package phase4
 // Brandes-Koepf direction helpers (C01): the sanity panics fire only for a direction that is neither left nor
 // right; the neighbour accessors need the neighbour to exist.
 //@ func outermostPos
-//@   requires dir == left || dir == right
+//@   requires[|C01] dir == left || dir == right
 //@ func outermostX
-//@   requires dir == left || dir == right
+//@   requires[|C01] dir == left || dir == right
 //@ func withinOutermostPos
-//@   requires dir == left || dir == right
+//@   requires[|C01] dir == left || dir == right
 //@ func withinOutermostX
-//@   requires dir == left || dir == right
+//@   requires[|C01] dir == left || dir == right
 //@ func medianNeighborIndices
-//@   requires dir == left || dir == right
+//@   requires[|C01] dir == left || dir == right
 //@ func firstNodeInLayer
-//@   requires (dir == left || dir == right) && l != nil && len(l.Nodes) > 0
+//@   requires[|C01] (dir == left || dir == right) && l != nil && len(l.Nodes) > 0
 //@ func lastNodeInLayer
-//@   requires (dir == left || dir == right) && l != nil && len(l.Nodes) > 0
+//@   requires[|C01] (dir == left || dir == right) && l != nil && len(l.Nodes) > 0
 //@ func nextNodeInLayer
-//@   requires n != nil && (dir == left || dir == right)
-//@   requires dir == right ==> 0 <= n.LayerPos + 1 && n.LayerPos + 1 < len(nodes)
-//@   requires dir == left ==> 0 <= n.LayerPos - 1 && n.LayerPos - 1 < len(nodes)
+//@   requires[|C01] n != nil && (dir == left || dir == right)
+//@   requires[|C01] dir == right ==> 0 <= n.LayerPos + 1 && n.LayerPos + 1 < len(nodes)
+//@   requires[|C01] dir == left ==> 0 <= n.LayerPos - 1 && n.LayerPos - 1 < len(nodes)
 //@ func prevNodeInLayer
-//@   requires n != nil && (dir == left || dir == right)
-//@   requires dir == right ==> 0 <= n.LayerPos - 1 && n.LayerPos - 1 < len(nodes)
-//@   requires dir == left ==> 0 <= n.LayerPos + 1 && n.LayerPos + 1 < len(nodes)
+//@   requires[|C01] n != nil && (dir == left || dir == right)
+//@   requires[|C01] dir == right ==> 0 <= n.LayerPos - 1 && n.LayerPos - 1 < len(nodes)
+//@   requires[|C01] dir == left ==> 0 <= n.LayerPos + 1 && n.LayerPos + 1 < len(nodes)
 
 // setColor (sink colouring): the scan for a viable in-edge stays inside n.In
 //@ func setColor
